@@ -127,6 +127,8 @@ type gen struct {
 	raced   bool // one NewTerm-vs-in-flight-request race per schedule (each costs a bounded wait)
 	raced2  bool // one generic handler race per schedule
 	pay     int64
+	seen    int64 // the term the node was last seen in while its shard was loaded
+	inc     int   // h.incarnation the plans below belong to
 	plan    map[int64][3]int64 // term -> honest decision: kind (0 none,1 invalid,2 trunc), t, o
 	done    map[int64]bool     // term -> the follower's log has been brought in line (truncate done or not needed)
 }
@@ -141,6 +143,7 @@ func (g *gen) shadowCopy() []ent {
 
 // after NewTerm(t) answered with head (ht,ho): invent the log of the leader of term t
 func (g *gen) electLeader(t, ht, ho int64) {
+	g.sync()
 	sh := g.shadowCopy()
 	d := len(sh)
 	if g.r.Chance(45) {
@@ -221,9 +224,18 @@ func lastHeadOf(out string) (int64, int64, bool) {
 	return t, o, true
 }
 
+// sync: the plans made for the leaders of an earlier incarnation of the node are void
+func (g *gen) sync() {
+	if g.inc != g.h.incarnation {
+		g.inc = g.h.incarnation
+		g.plan, g.done = map[int64][3]int64{}, map[int64]bool{}
+	}
+}
+
 func (g *gen) newTerm(t int64) {
 	n := len(g.h.outs)
 	g.h.doNewTerm(t)
+	g.sync()
 	if t > g.term {
 		g.term = t
 	}
@@ -298,7 +310,7 @@ func (g *gen) staleFirstRequest() {
 	if h.fatal != "" || !r.Chance(60) {
 		return
 	}
-	t := g.term - 2 - int64(2*r.Intn(2))
+	t := noTermBelow(g.term - 2 - int64(2*r.Intn(2)))
 	switch r.Intn(6) {
 	case 0:
 		h.doDeleteShard(t)
@@ -322,6 +334,7 @@ func (g *gen) staleFirstRequest() {
 // afterRace: bookkeeping of the generator for the actions a race realised (from index n on)
 func (g *gen) afterRace(n int) {
 	h := g.h
+	g.sync()
 	for i := n; i < len(h.acts) && i < len(h.outs); i++ {
 		f := strings.Split(h.acts[i], ":")
 		ht, ho, ok := lastHeadOf(h.outs[i])
@@ -345,6 +358,14 @@ func (g *gen) afterRace(n int) {
 	}
 }
 
+// requests carry a term >= -1 (-1 = no term; the code gives it a meaning of its own, lower numbers have none)
+func noTermBelow(t int64) int64 {
+	if t < -1 {
+		return -1
+	}
+	return t
+}
+
 type choice struct {
 	w int
 	f func()
@@ -353,7 +374,14 @@ type choice struct {
 func (g *gen) step() {
 	h := g.h
 	r := g.r
+	g.sync()
 	role, term, st, head := g.curStatus()
+	// a shard that is on disk but not loaded (after a restart) reports no term: requests keep coming in the term it was in
+	if role != "N" {
+		g.seen = term
+	} else if term < 0 {
+		term = g.seen
+	}
 	recv, busy, any := g.aliveStreams()
 	c04 := *focus == "c04"
 	var cs []choice
@@ -382,7 +410,7 @@ func (g *gen) step() {
 		add(2, func() {
 			t := term
 			if r.Chance(25) {
-				t = term + int64(r.Intn(5)) - 2
+				t = noTermBelow(term + int64(r.Intn(5)) - 2)
 			}
 			ht := int64(r.Intn(int(g.term)+3)) - 1
 			ho := head + int64(r.Intn(6)) - 3
@@ -463,7 +491,7 @@ func (g *gen) step() {
 		add(wro, func() {
 			t := term
 			if r.Chance(8) {
-				t = term - 2
+				t = noTermBelow(term - 2)
 			} else if r.Chance(4) {
 				t = term + 2
 			}
@@ -535,7 +563,7 @@ func (g *gen) step() {
 		add(wsn, func() {
 			t := term
 			if r.Chance(25) {
-				t = term - 2
+				t = noTermBelow(term - 2)
 			}
 			c := int64(r.Intn(4))
 			g.nextSid++
@@ -632,16 +660,15 @@ func (g *gen) step() {
 			})
 			add(2, func() { g.openStream(term) })
 		}
-		add(1, func() { h.doBecomeLeader(term + int64(r.Intn(3)) - 1) })
-		add(1, func() { g.openStream(term - 2) })
+		add(1, func() { h.doBecomeLeader(noTermBelow(term + int64(r.Intn(3)) - 1)) })
+		add(1, func() { g.openStream(noTermBelow(term - 2)) })
 		add(1, func() { h.doTruncate(term+2, 0, 0) })
 		add(1, func() { h.doCrashRestart(r.Intn(8)) })
 	}
 	// DeleteShard through the director: older term (must be refused), current / newer term (removes the shard)
-	add(2, func() { h.doDeleteShard(g.term - 2 - int64(2*r.Intn(2))) })
+	add(2, func() { h.doDeleteShard(noTermBelow(g.term - 2 - int64(2*r.Intn(2)))) })
 	add(1, func() {
 		h.doDeleteShard(term + int64(2*r.Intn(2)))
-		g.plan, g.done = map[int64][3]int64{}, map[int64]bool{}
 	})
 	total := 0
 	for _, c := range cs {
@@ -708,7 +735,7 @@ func finish(o *hx.Out, h *H, kindKey string) {
 
 func runGenerated(o *hx.Out, r *hx.Rng, steps int) {
 	h := newH(o)
-	g := &gen{h: h, r: r, plan: map[int64][3]int64{}, done: map[int64]bool{}}
+	g := &gen{h: h, r: r, seen: -1, plan: map[int64][3]int64{}, done: map[int64]bool{}}
 	g.newTerm(2)
 	h.settle()
 	for i := 0; i < steps && h.fatal == ""; i++ {
